@@ -23,7 +23,8 @@ ASSUMPTIONS = [
     'derivative oracle: complex-step differentiation of the reference (exact to rounding)',
     'outputs of multiplicative / constant+multiplicative models are positive (negative total '
     'standard deviations are outside the documented model)']
-REQUIRED = ['kind:gauss', 'kind:mult', 'kind:cm', 'kind:lognorm', 'oos', 'reduced', 'p=0', 'n=1', 'long', 'cm:negative_output', 'oos:both', 'large_common_level', 'zero_output:cm']
+REQUIRED = ['kind:gauss', 'kind:mult', 'kind:cm', 'kind:lognorm', 'oos', 'reduced', 'p=0', 'n=1', 'long', 'cm:negative_output', 'oos:both', 'large_common_level', 'zero_output:cm',
+            'renamed_through_wrapper:two_parameters']
 KINDS = ['gauss', 'mult', 'cm', 'lognorm']
 
 
@@ -374,6 +375,28 @@ def check(case):
                     k, sens[k], want_s[k]))
             # back to the configuration of the spec
             em.fix_parameters({dn[k_new]: None, dn[k_old]: float(sig[k_old])})
+
+    # parameters renamed THROUGH a reduced wrapper while all are free (names in no alphabetical order), then one fixed by
+    # its new name: the name keeps addressing the parameter it was given to
+    if insup:
+        with case.clause('renamed_through_wrapper'):
+            import chi
+            new = ['Residual SD', 'CV'][:npar]
+            w = chi.ReducedErrorModel(ref.em_class(kind)())
+            w.set_parameter_names(list(new))
+            case.equal(list(w.get_parameter_names()), new, 'names after set_parameter_names on the wrapper')
+            k_fix = (n + p) % npar
+            w.fix_parameters({new[k_fix]: float(sig[k_fix])})
+            rest = [k for k in range(npar) if k != k_fix]
+            case.equal(list(w.get_parameter_names()), [new[k] for k in rest], 'names after fixing %r' % new[k_fix])
+            case.close(w.compute_log_likelihood(sig[rest].copy(), ybar.copy(), y.copy()), want, rtol=1e-9,
+                       what='log-likelihood with %r fixed (parameters renamed through the wrapper)' % new[k_fix])
+            case.close(w.compute_pointwise_ll(sig[rest].copy(), ybar.copy(), y.copy()), want_pw, rtol=1e-9,
+                       what='pointwise with %r fixed (parameters renamed through the wrapper)' % new[k_fix])
+            sc, sens = w.compute_sensitivities(sig[rest].copy(), ybar.copy(), S.copy(), y.copy())
+            case.close(sc, want, rtol=1e-9, what='score with %r fixed (parameters renamed through the wrapper)' % new[k_fix])
+            if npar == 2:
+                case.labels.append('renamed_through_wrapper:two_parameters')
 
     if insup:
         with case.clause('normalisation'):
